@@ -13,6 +13,7 @@ import interpfam
 import provfam
 import typefam
 import boundsfam
+import termfam
 from vlib import InfraError
 
 CHECKS = {}
@@ -31,6 +32,8 @@ def replay(ctx, path):
     fam = obj.get("replay_family", "eval")
     if fam == "eval":
         return evalfam.replay(ctx, obj)
+    if fam == "terms":
+        return termfam.replay(ctx, obj)
     if fam == "bounds":
         return boundsfam.replay(ctx, obj)
     if fam == "types":
@@ -132,3 +135,13 @@ def c12(ctx):
 @register("C11")
 def c11(ctx):
     return boundsfam.check_c11(ctx)
+
+
+@register("C08")
+def c08(ctx):
+    return termfam.check_c08(ctx)
+
+
+@register("C09")
+def c09(ctx):
+    return termfam.check_c09(ctx)
